@@ -121,10 +121,11 @@ static int uc_dec(char *s)
 		return c;
 	if (~c & 0x20)
 		return ((c & 0x1f) << 6) | (s[1] & 0x3f);
+	/* a truncated character: do not read past the terminator */
 	if (~c & 0x10)
-		return ((c & 0x0f) << 12) | ((s[1] & 0x3f) << 6) | (s[2] & 0x3f);
+		return !s[1] ? c : ((c & 0x0f) << 12) | ((s[1] & 0x3f) << 6) | (s[2] & 0x3f);
 	if (~c & 0x08)
-		return ((c & 0x07) << 18) | ((s[1] & 0x3f) << 12) | ((s[2] & 0x3f) << 6) | (s[3] & 0x3f);
+		return !s[1] || !s[2] ? c : ((c & 0x07) << 18) | ((s[1] & 0x3f) << 12) | ((s[2] & 0x3f) << 6) | (s[3] & 0x3f);
 	return c;
 }
 
